@@ -148,6 +148,8 @@ FALLBACK = {
     "c17InitFixed": '["NOTHING", "attr_dict"]',
     "c17EvalMergeOrder": '["module", "snippets"]',
     "c17InitMergeOrder": '["names", "fixed"]',
+    "c17GetattrFixed": '["cached_properties", "_cached_setattr_get", "original_getattr"]',
+    "c17GetattrMergeOrder": '["fixed"]',
     # C16: names the per-class closures rebind in their factory's scope (`nonlocal`/`global` statements)
     "attrsWrapRebinds": "[]",
     "defineWrapRebinds": "[]",
@@ -168,6 +170,7 @@ TYPES = {
     "c17ReprAffix": "String × String", "c17ReprCallAffix": "String × String",
     "c17ReprFixed": "List String", "c17EqFixed": "List String", "c17HashFixed": "List String",
     "c17InitFixed": "List String", "c17EvalMergeOrder": "List String", "c17InitMergeOrder": "List String",
+    "c17GetattrFixed": "List String", "c17GetattrMergeOrder": "List String",
     "attrsWrapRebinds": "List String", "defineWrapRebinds": "List String", "makeClassDictAliased": "Bool",
 }
 
@@ -388,6 +391,52 @@ def _make_class_dict_aliased(mk: Src) -> str:
     return "false"
 
 
+def _c17_getattr_globals(mk: Src):
+    """globals dict of the cached-property __getattr__ script: constant keys and the order of its sources"""
+    fn = mk.func("_make_cached_property_getattr")
+    keys, order = [], []
+
+    def dict_keys(d):
+        for k in d.keys:
+            if k is None:
+                continue
+            if isinstance(k, ast.Constant) and isinstance(k.value, str):
+                keys.append(k.value)
+            else:
+                raise ValueError("non-constant key")
+
+    for n in _in_order(fn):
+        if isinstance(n, ast.Assign) and len(n.targets) == 1 and isinstance(n.targets[0], ast.Name) \
+                and n.targets[0].id in ("glob", "globs") and isinstance(n.value, ast.Dict):
+            if n.value.keys:
+                dict_keys(n.value)
+                order.append("fixed")
+        elif isinstance(n, ast.Call) and ast.unparse(n.func) in ("glob.update", "globs.update") and len(n.args) == 1:
+            a = n.args[0]
+            if "sys.modules" in ast.unparse(a) or "__dict__" in ast.unparse(a):
+                order.append("module")
+            elif isinstance(a, ast.Dict):
+                dict_keys(a)
+                order.append("fixed")
+            else:
+                raise ValueError("unrecognised update argument")
+        elif isinstance(n, ast.Assign) and len(n.targets) == 1 and isinstance(n.targets[0], ast.Subscript) \
+                and ast.unparse(n.targets[0].value) in ("glob", "globs"):
+            t = n.targets[0]
+            if isinstance(t.slice, ast.Constant) and isinstance(t.slice.value, str):
+                keys.append(t.slice.value)
+                order.append("fixed")
+            else:
+                raise ValueError("non-constant key")
+    if not keys:
+        raise ValueError("globals of the __getattr__ script not found")
+    dedup = []
+    for o in order:
+        if not dedup or dedup[-1] != o:
+            dedup.append(o)
+    return lean_list([lean_str(k) for k in keys]), lean_list([lean_str(o) for o in dedup])
+
+
 def extract() -> tuple[dict, list]:
     vals, broken = {}, []
 
@@ -438,6 +487,8 @@ def extract() -> tuple[dict, list]:
     item("c17InitFixed", lambda: _c17_fixed_globs(mk(), "_make_init_script"))
     item("c17EvalMergeOrder", lambda: _c17_merge_order(mk(), "_eval_snippets"))
     item("c17InitMergeOrder", lambda: _c17_merge_order(mk(), "_make_init_script"))
+    item("c17GetattrFixed", lambda: _c17_getattr_globals(mk())[0])
+    item("c17GetattrMergeOrder", lambda: _c17_getattr_globals(mk())[1])
     item("attrsWrapRebinds", lambda: _rebinds(src("_make.py"), "attrs"))
     item("defineWrapRebinds", lambda: _rebinds(src("_next_gen.py"), "define"))
     item("makeClassDictAliased", lambda: _make_class_dict_aliased(src("_make.py")))
